@@ -133,3 +133,56 @@ def roundtrip(chk, pid, replay, signature='roundtrip-fallback'):
     for tj, diffs in bad:
         chk.native_replays += 1
         chk.violation(f'{pid}/native-fallback tree {tj.get("s")!r}', signature, {'tree': tj, 'differences': diffs}, '; '.join(diffs)[:400])
+
+class _EnumCtx:
+    """replays a fixed vector of choices and records the arity of every choice point (concrete enumeration of a scenario's choices)"""
+    def __init__(self, prefix): self.prefix, self.i, self.arity = list(prefix), 0, []
+    def choose(self, n, tag=''):
+        v = self.prefix[self.i] if self.i < len(self.prefix) else 0
+        self.arity.append(n); self.i += 1
+        return v
+
+def _enumerate_choices(build, limit=64):
+    """all results of build(ctx) over every vector of ctx.choose answers (depth first, at most `limit`)"""
+    out = []; work = [[]]
+    while work and len(out) < limit:
+        pre = work.pop()
+        ctx = _EnumCtx(pre); r = build(ctx); out.append(r)
+        for pos in range(len(pre), len(ctx.arity)):
+            for v in range(1, ctx.arity[pos]): work.append((pre + [0] * (pos - len(pre)))[:pos] + [v])
+    return out
+
+def canonisation(chk, pid, native_canon, native_dups):
+    """C09: canonical forms and duplicate marking natively on every concrete member of the canonisation family (every way to
+    bind the variable occurrences, concrete labels), compared with the alpha-equivalence / duplicate oracles"""
+    from .oracle import gen as G
+    o = lambda s_: tuple(map(ord, s_))
+    labels = {'L0': o('d'), 'L1': o('e'), 'L2': o('f')}
+    trees = []
+    for sk in TL.pre_family():
+        for t in _enumerate_choices(lambda ctx: TL.bind_family(ctx, sk, labels, o('v1')), limit=24):
+            if t not in trees: trees.append(t)
+    def subs(t):
+        out = [t]
+        for c in t[1:]:
+            if isinstance(c, tuple) and c and isinstance(c[0], str): out += subs(c)
+        return out
+    bad = []; n = 0
+    for t in trees:
+        ss = [s for s in subs(t) if s[0] not in ('true', 'false', 'prop', 'var', 'wild')]
+        for s in ss:
+            n += 1; d = native_canon([TL.tree_to_json(s)])
+            if d: bad.append((TL.tree_to_json(s), d))
+        for a, b in zip(ss, ss[1:]):
+            n += 1; d = native_canon([TL.tree_to_json(a), TL.tree_to_json(b)])
+            if d: bad.append((TL.tree_to_json(a), d))
+        d = native_dups([TL.tree_to_json(t)])
+        if d: bad.append((TL.tree_to_json(t), d))
+        if len(bad) >= 6: break
+    name = f'{pid}/native-fallback: canonical forms (alpha-variant, injective renaming, idempotent, equal iff alpha-equivalent for neighbouring sub-formulas) and duplicate marking on {len(trees)} concrete trees / {n} sub-formula queries'
+    if not bad:
+        chk.obligation(name, 'native-fallback', 'holds', 0.0, True, {'trees': len(trees), 'queries': n, 'kind': 'enumeration, not a solver verdict'}); return
+    chk.obligation(name, 'native-fallback', 'violated')
+    for tj, diffs in bad[:6]:
+        chk.native_replays += 1
+        chk.violation(f'{pid}/native-fallback {tj.get("s")!r}', 'canon', {'tree': tj, 'differences': diffs}, '; '.join(diffs)[:500])
